@@ -53,6 +53,9 @@ EXPLANATION += ' RCP-EVAL (K0 + K5), A64-RCPLIT, RVV-SS-RCPPOOL.'
 
 TECHNIQUE += '; fixed-width evaluation of the reciprocal under two data models (LP64 parse and LLP64 cross parse); agreement of the A64 literal-register table with the prologue of the assembled runtime'
 
+EXPLANATION += ' X86-ISA-BASE.'
+CLAIM += (' randomx_reciprocal_fast and the rest of the hand-written x86-64 runtime contain no instruction of a later ISA extension (X86-ISA-BASE: `lzcnt` executes as `bsr` on CPUs without ABM and returns another value).')
+
 
 def run(ctx, R):
     F = astq.Facts(ctx, 'K0')
